@@ -363,6 +363,9 @@ class Gen:
             mk_field("b", ("option", ("named", "Foo", [])), optional=True, inline=True),
             mk_field("c", ("option", ("named", "Foo", [])), optional=False, inline=True, skip_none=True),
             mk_field("d", ("option", ("vec", ("named", "Color", []))), optional=False, skip_none=True)], flatten_ok=False, no_ref=True))
+        self.add(mk_struct("KfQuote", "named", [mk_field("x", ("leaf", "i32"), rename='a"b'), mk_field("y", ("leaf", "bool"), rename="back\\slash")],
+                           flatten_ok=False, no_ref=True))
+        self.add(mk_struct("KfReserved", "unit", [], rename="break", flatten_ok=False, no_ref=True))
         self.add(mk_struct("KfOpt", "named", [mk_field("x", ("param", 0))], params=[("T", None)], optional_fields=True,
                            flatten_ok=False, no_ref=True))
 
@@ -376,6 +379,9 @@ class Gen:
         for rule in RULES:
             d = self.struct("named", 3, params=[])
             d["rename_all"] = rule
+            used = {f["ident"] for f in d["fields"]}
+            if "created_at" not in used:   # a type-overridden field goes through its own naming code path
+                d["fields"].append(mk_field("created_at", ("leaf", "String"), type="string"))
             e = self.enum(("external",), shapes=["unit", "named"], params=[])
             e["rename_all"] = rule
             e["rename_all_fields"] = self.rng.choice(RULES)
